@@ -11,6 +11,7 @@ EXTENDS Integers, Sequences, FiniteSets, TLC, Json
 
 CONSTANTS RULESET,     \* rule names to explore
           MAXACTIVE,   \* at most this many option names are set (in either layer) in one case
+          VARMAX,      \* the rule-source and pre-seeded-default variants are explored for cases with at most this many names set
           EXPORT       \* print every n-th case for the replay (0 = none)
 
 NONE == "NONE"
@@ -101,29 +102,43 @@ InitArith(L0) ==      \* returns [L, cls, precision, guard, display]
        [] OTHER -> [L |-> [L1 EXCEPT !.err = "ArithmeticValuesError"], cls |-> NONE, precision |-> NONE, guard |-> NONE, display |-> NONE]
 
 (* ---------- Election.__init__ up to the arithmetic class ---------- *)
-Outcome(r, cmd, file) ==
-  LET L0 == [default |-> << >>, file |-> file, cmd |-> ("rule" :> r) @@ cmd, force |-> << >>, allowed |-> << >>, err |-> ""]
+(* where the rule name comes from: the caller ("cmd"), the ballot file's [droop rule=...] ("file"), or both (the caller's wins) *)
+OtherRule(r) == IF r = "meek" THEN "scotland" ELSE "meek"
+CmdLayer(k) == IF k.rsrc \in {"cmd", "both"} THEN ("rule" :> k.rule) @@ k.cmd ELSE k.cmd
+FileLayer(k) == IF k.rsrc = "file" THEN ("rule" :> k.rule) @@ k.file
+                ELSE IF k.rsrc = "both" THEN ("rule" :> OtherRule(k.rule)) @@ k.file ELSE k.file
+(* `pre': defaults already registered on the Options object handed to Election (Options.setopt is public API) *)
+Layers0(k) == [default |-> k.pre, file |-> FileLayer(k), cmd |-> CmdLayer(k), force |-> << >>, allowed |-> << >>, err |-> ""]
+Outcome(k) ==
+  LET L0 == Layers0(k)
+      r == GetOpt(L0, "rule")               \* Election.__init__: options.getopt('rule')
       L1 == RuleOptions(r, L0)
-  IN IF Stop(L1) THEN [err |-> L1.err, L |-> L1, cls |-> NONE, precision |-> NONE, guard |-> NONE, display |-> NONE]
-     ELSE LET A == InitArith(L1) IN [err |-> A.L.err, L |-> A.L, cls |-> A.cls, precision |-> A.precision, guard |-> A.guard, display |-> A.display]
+  IN IF Stop(L1) THEN [err |-> L1.err, L |-> L1, cls |-> NONE, precision |-> NONE, guard |-> NONE, display |-> NONE, rule |-> r]
+     ELSE LET A == InitArith(L1) IN [err |-> A.L.err, L |-> A.L, cls |-> A.cls, precision |-> A.precision, guard |-> A.guard, display |-> A.display, rule |-> r]
 
 Effective(L) == [n \in DOMAIN L.default \cup DOMAIN L.file \cup DOMAIN L.cmd \cup DOMAIN L.force |-> GetOpt(L, n)]
 Unused(L) == ((DOMAIN L.file \cup DOMAIN L.cmd) \ {"rule", "path"}) \ DOMAIN L.default
 Overridden(L) == {n \in DOMAIN L.force : LET o == L.cmd @@ L.file IN Has(o, n) /\ o[n] # L.force[n]}
 
 (* ---------- the space of cases ---------- *)
-VARIABLE c     \* [rule, cmd, file]
+VARIABLE c     \* [rule, rsrc, pre, cmd, file]
 Partial(S) == UNION {[T -> UNION {Dom(n) : n \in Names}] : T \in SUBSET S}
 WellTyped(f) == \A n \in DOMAIN f : f[n] \in Dom(n)
+Presets == {<< >>, [precision |-> "7", display |-> "1"], [arithmetic |-> "rational", omega |-> "1", guard |-> "0"],
+            [arithmetic |-> "fixed", precision |-> "2", defeat_batch |-> "zero"]}
 Init == \E r \in RULESET, A \in SUBSET Names :
           /\ Cardinality(A) <= MAXACTIVE
-          /\ \E cmd \in Partial(A), file \in Partial(A) :
+          /\ \E cmd \in Partial(A), file \in Partial(A),
+                rsrc \in (IF Cardinality(A) <= VARMAX THEN {"cmd", "file", "both"} ELSE {"cmd"}),
+                pre \in (IF Cardinality(A) <= VARMAX THEN Presets ELSE {<< >>}) :
                /\ WellTyped(cmd) /\ WellTyped(file)
                /\ DOMAIN cmd \cup DOMAIN file = A
-               /\ c = [rule |-> r, cmd |-> cmd, file |-> file]
+               /\ c = [rule |-> r, rsrc |-> rsrc, pre |-> pre, cmd |-> cmd, file |-> file]
 Next == UNCHANGED c
-O == Outcome(c.rule, c.cmd, c.file)
+O == Outcome(c)
 
+(* the caller's rule name beats the file's; a rule name in the file alone selects the rule *)
+RuleChosen == O.rule = c.rule
 (* statutory rules cannot be reconfigured: whatever is supplied from either layer *)
 StatutoryImmune == c.rule \in Statutory =>
                      /\ O.err = ""
@@ -140,12 +155,14 @@ Reported == O.err = "" =>
               /\ (c.rule \in Statutory => \A n \in (DOMAIN c.cmd \cup DOMAIN c.file) \cap DOMAIN O.L.force :
                                              (n \in Overridden(O.L)) = ((c.cmd @@ c.file)[n] # O.L.force[n]))
               /\ Unused(O.L) \cap DOMAIN O.L.default = {}
+              /\ "rule" \notin Unused(O.L)
 
+Variant == c.rsrc # "cmd" \/ c.pre # << >>
 Hash == Cardinality(DOMAIN c.cmd) * 7 + Cardinality(DOMAIN c.file) * 3 + Len(c.rule)
         + Cardinality({n \in DOMAIN c.cmd : c.cmd[n] \in {"0", "fixed", "true", "none", "1"}}) * 5
         + Cardinality({n \in DOMAIN c.file : c.file[n] \in {"2", "guarded", "false", "safe", "12", "3"}}) * 11
-Exported == IF EXPORT > 0 /\ Hash % EXPORT = 0
-            THEN PrintT("OPTCASE " \o ToJson([rule |-> c.rule, cmd |-> c.cmd, file |-> c.file, err |-> O.err,
+Exported == IF EXPORT > 0 /\ (IF Variant THEN Hash % 2 = 0 \/ EXPORT = 1 ELSE Hash % EXPORT = 0)
+            THEN PrintT("OPTCASE " \o ToJson([rule |-> c.rule, pre |-> c.pre, cmd |-> CmdLayer(c), file |-> FileLayer(c), err |-> O.err,
                                              cls |-> O.cls, precision |-> O.precision, guard |-> O.guard, display |-> O.display,
                                              default |-> O.L.default, force |-> O.L.force, effective |-> Effective(O.L),
                                              unused |-> Unused(O.L), overridden |-> Overridden(O.L)]))
